@@ -306,6 +306,13 @@ def step (line : String) : String :=
         && words.all (fun x => !x.isEmpty && x.length ≤ w) && t.all (fun c => c.toNat < 128)
       if simple then (Json.mkObj [("ok", Json.str (String.ofList (Wrap.fillSimple w t)))]).compress
       else "{\"unmodelled\":\"text outside the simple class of textwrap.fill\"}"
+    | .ok "to_docstring" =>
+      let ir := match j.getObjVal? "ir" with | .ok i => irOfJson i | _ => {}
+      let emit := (j.getObjValAs? Bool "emit").toOption.getD true
+      let level := (j.getObjValAs? Nat "indent_level").toOption.getD 2
+      let et := (j.getObjValAs? Bool "emit_types").toOption.getD false
+      let st := (j.getObjValAs? Bool "emit_separating_tab").toOption.getD true
+      (resJson (ToDocstring.toDocstring ir emit level et st) fun t => Json.str (String.ofList t)).compress
     | .ok "unwrap" =>
       -- what `_set_name_and_type` (word_wrap on) reads back from wrapped, indented prose
       let t := (optStr j "text").getD []
